@@ -130,7 +130,9 @@ META = {
             'reporter through a [REPORTER] plugin section + -r (12%), `actions` rejected only at execution time (4%), values '
             'the DB codec cannot encode (3%), runlib calc_first tasks (p_calc_then_fail 0.15); exhaustive tier: every outcome assignment of '
             'small fixed graphs x --continue x reporter, and every completion order of small thread cases; '
-            'wave 5 (text_unit:*): 3000 (quick) generated reporter-call sequences of 1-15 calls over 1-5 tasks drawn from names '
+            'r6: unpicklable values (lock / generator) returned by an extra first action of a failing task (60% of the process-runner '
+            'cases with a failing task, 8% otherwise); -r json serial: teardown callables that print at verbosity 2 or fail (50% of '
+            'the cases, 70% of their teardown tasks); wave 5 (text_unit:*): 3000 (quick) generated reporter-call sequences of 1-15 calls over 1-5 tasks drawn from names '
             'with leading / inner / trailing underscores, 25% without actions, 20% not executed, verbosity 0/1/2, custom / empty / '
             'numeric titles, captured out/err, every BaseFail subclass with report on/off and with a caught exception, runtime and '
             'cleanup errors, complete_run anywhere, reporter class and failure_verbosity drawn uniformly; corpus/C19text; '
@@ -355,6 +357,8 @@ def _wrap_task_dict(d, t, n, rec):
                                   inside the runner at execution time (InvalidTask -> runtime_error, run aborted, exit 2)
       unpicklable: 'lock' | 'gen' (tasks whose outcome is 'failed' / 'error') an extra FIRST action returns a dict holding a
                                   threading.Lock / a generator; the task's own action then fails (r6)
+      td: 'prints' | 'fails'      (tasks with a teardown) one more teardown callable that writes TD-OUT-<n> / TD-ERR-<n> to
+                                  stdout / stderr, or raises RuntimeError('TD-FAIL-<n>') -> reporter.cleanup_error (r6)
       bad_values: 'set' | 'bytes' (tasks whose outcome is 'saveerr') the actions succeed and return a dict with a value the DB
                                   codec cannot encode: save_success fails, the task is a DependencyError failure (model: saveErr)"""
     x = _extras(t)
@@ -419,6 +423,18 @@ def _wrap_task_dict(d, t, n, rec):
             return {'held': threading.Lock() if what == 'lock' else (i for i in ())}
         act_unpicklable.__name__ = 'act_unpicklable_%d' % n
         d['actions'] = [act_unpicklable] + list(d['actions'])
+    if x.get('td') and t.get('teardown') and d.get('teardown') and not x.get('base_exc'):
+        # r6: a teardown callable that writes to stdout / stderr (seen at task verbosity 2) or that fails
+        td_kind = x['td']
+
+        def td_extra():
+            if td_kind == 'prints':
+                sys.stdout.write('TD-OUT-%d\n' % n)
+                sys.stderr.write('TD-ERR-%d\n' % n)
+                return None
+            raise RuntimeError('TD-FAIL-%d' % n)
+        td_extra.__name__ = 'td_extra_%d' % n
+        d['teardown'] = list(d['teardown']) + [td_extra]
     if x.get('lazy_bad'):
         d['actions'] = [3] if x['lazy_bad'] == 'int' else [(orig, [], {}, 1)]
     if x.get('verbosity') is not None:
@@ -748,6 +764,22 @@ def observe(case, keep_raw=True):
             if not outside and not crashed and (out.get('stray_out') or out.get('stray_err')):
                 obs['problems'].append('output besides the JSON document: stdout %r stderr %r'
                                        % (out.get('stray_out', '')[:80], out.get('stray_err', '')[:80]))
+        if not outside and not crashed:
+            # r6: teardown actions run BEFORE the report is completed: what they print (verbosity 2) and their failures
+            # (cleanup_error) are in the document, and nothing follows the document on the process' stdout
+            if (obs.get('stdout_end') or '').strip():
+                obs['problems'].append('output on the process\' stdout besides / after the JSON document: %r'
+                                       % obs['stdout_end'][:80])
+            tds = [e[1] for e in obs['full'] if e[0] == 'teardown']
+            for n in tds:
+                t = case['tasks'][n] if isinstance(n, int) and n < len(case['tasks']) else {}
+                td = _extras(t).get('td')
+                if td == 'fails' and text is not None and ('TD-FAIL-%d' % n) not in text:
+                    obs['problems'].append('the failure of the teardown of %s (cleanup_error) is not in the JSON document'
+                                           % t.get('name'))
+                if td == 'prints' and text is not None and ('TD-OUT-%d' % n) not in text and \
+                        _extras(t).get('verbosity') == 2 and case.get('cli_verbosity') is None:
+                    obs['problems'].append('what the teardown of %s printed is not in the JSON document' % t.get('name'))
         if out.get('streams_restored') is False:
             obs['problems'].append('JsonReporter.complete_run left sys.stdout / sys.stderr redirected to its buffers'
                                    + (' (it raised %s)' % crashed if crashed else ''))
@@ -1066,6 +1098,14 @@ def decorate(c, rng):
         for t in cand:
             if rng.random() < 0.7:
                 t.setdefault('c19', {})['unpicklable'] = rng.choice(['lock', 'gen'])
+    # r6: -r json, serial runner: teardown callables that print (task verbosity 2) or fail -- what they write / their failure
+    # belongs INTO the single JSON document (out / err), nothing may follow it on the process' stdout
+    if c.get('reporter') == 'json' and c['runner'] == 'serial' and not c.get('out_encoding') and rng.random() < 0.5:
+        for t in real:
+            if t.get('teardown') and not _extras(t).get('base_exc') and not _extras(t).get('lazy_bad') and rng.random() < 0.7:
+                t.setdefault('c19', {})['td'] = rng.choice(['prints', 'fails'])
+                if t['c19']['td'] == 'prints' and c.get('cli_verbosity') is None:
+                    t['c19']['verbosity'] = 2
     if 'model' in c:
         c['model'] = runlib.expand(c)      # outcomes / calc_first may have changed
     return c
